@@ -371,10 +371,52 @@ def custom_filter(name):
     raise ValueError(name)
 
 
+class FilterFailure(RuntimeError):
+    """raised once by a user filter (a time-out, a lost connection, ...): the caller catches it
+    and goes on with the same objects"""
+
+
+class Flaky:
+    """A user-written wrapper around a filter that fails once when it is armed (the harness arms
+    it right before one chosen call; see `fail_once`)."""
+
+    def __init__(self, inner):
+        self.inner = inner
+        self.armed = False
+        self.failures = 0
+
+    def __call__(self, dispatcher, operations):
+        if self.armed:
+            self.armed = False
+            self.failures += 1
+            raise FilterFailure("user filter failed once")
+        return self.inner(dispatcher, operations)
+
+
+def fail_once(d, call):
+    """Makes the dispatcher's (flaky) filter fail during `call()` if the call reaches it; the
+    failure is swallowed as a caller would.  Returns True if a failure happened."""
+    f = d.ready_operations_filter
+    if not isinstance(f, Flaky):
+        return False
+    before = f.failures
+    f.armed = True
+    try:
+        call()
+    except FilterFailure:
+        pass
+    finally:
+        f.armed = False
+    return f.failures > before
+
+
 def make_filter(spec):
     """Builds the real filter callable for a spec."""
     if spec is None:
         return None
+    if spec.get("flaky"):
+        inner = make_filter({k: v for k, v in spec.items() if k != "flaky"})
+        return Flaky(inner)
     if any(n.startswith("custom_") for n in spec["names"]):
         from job_shop_lib.dispatching import create_composite_operation_filter
         fs = [custom_filter(n) if n.startswith("custom_") else n for n in spec["names"]]
